@@ -1,7 +1,1413 @@
-//! C02 — not implemented yet (stub).
-use crate::engine::Args;
+//! C02 — every received request gets exactly one well-formed answer (DESIGN §4 C02).
+//!
+//! Wire lab, fault enumeration. Built so far: HTTP/1.1 client -> HTTP/1.1 backend. One keep-alive client
+//! connection sends 1..4 requests one after the other; every request carries an injected cause (routing
+//! outcome, backend misbehaviour at a generated point of the response, client stopping mid-request). The
+//! oracle is the property's own status table plus "an abort is a connection close, never a clean end on a
+//! short body"; after a fault the next request (same connection when it is still usable, otherwise a new
+//! one) and a final probe on a fresh connection must be served with their exact bodies.
 
-pub fn run(_args: &Args) -> i32 {
-    println!("INCONCLUSIVE: C02 has no check yet");
-    2
+use std::{
+    cell::RefCell,
+    collections::BTreeMap,
+    io::{Read, Write},
+    net::{SocketAddr, TcpStream},
+    sync::{Arc, Mutex},
+    time::{Duration, Instant},
+};
+
+use proptest::prelude::*;
+use serde::{Deserialize, Serialize};
+use sozu_command_lib::{
+    proto::command::{PathRule, RequestHttpFrontend, RulePosition, request::RequestType},
+    scm_socket::Listeners,
+    state::ConfigState,
+};
+
+use crate::{
+    engine::{self, Args, CaseReport, CheckResult, Evidence, Failure, Stats},
+    lab::{
+        self, LabConfig, LabWorker,
+        h1::{self, Acceptor, BodyFraming, End, Framing, H1Conn, H1Message, Kind, ReadOutcome, content, first_mismatch},
+    },
+};
+
+// ------------------------------------------------------------------ case
+
+/// Where a backend stops sending its response.
+#[derive(Clone, Debug, Serialize, Deserialize, PartialEq)]
+pub enum CutPos {
+    /// after 1..=len(status line) bytes
+    StatusLine(u32),
+    /// inside the header section (status line complete, blank line not yet complete)
+    Headers(u32),
+    /// exactly after the blank line
+    HeadEnd,
+    /// 1.. bytes into the body as serialised (chunk framing included), at least one byte missing
+    Body(u32),
+    /// one byte before the end of the serialised message
+    BodyMinus1,
+}
+
+#[derive(Clone, Debug, Serialize, Deserialize, PartialEq)]
+pub enum Cause {
+    /// the backend answers 200 with the generated body
+    Normal,
+    /// unknown Host -> 404
+    NoRoute,
+    /// frontend without cluster -> 401
+    Deny,
+    /// cluster without backend -> 503
+    NoBackend,
+    /// the cluster's only backend address is bound but not listening -> 503 once the retry budget is spent
+    BackendRefuses,
+    /// the cluster's only backend accepts and closes at once, without reading -> 502 or 503
+    BackendClosesAtAccept,
+    /// the backend reads the request, then closes without a byte -> 502
+    BackendClosesWithoutAnswer { reset: bool },
+    /// the backend reads the request and never answers -> 504 within back_timeout
+    BackendStalls,
+    /// the backend answers completely, but only 700 ms after back_timeout -> 504 within back_timeout
+    BackendAnswersLate,
+    /// the backend closes as soon as it has read the request head, while the client has sent only half
+    /// of the body and waits -> 502 or 503
+    BackendClosesMidRequest { reset: bool },
+    /// not a fault, an unusual moment: the backend answers its complete 200 as soon as it has read the
+    /// request head; the client has sent half of the body, reads the response, then sends the rest
+    BackendAnswersBeforeBody,
+    /// the backend answers bytes that are not HTTP -> 502
+    BackendGarbage { kind: u32, linger: bool },
+    /// the backend sends a prefix of its response, then closes (FIN or RST), at once or 30 ms later
+    /// (so that the prefix is relayed before the close is seen)
+    BackendCutsResponse {
+        at: CutPos,
+        reset: bool,
+        #[serde(default)]
+        pause: bool,
+    },
+    /// the backend sends a prefix of its response, then goes silent
+    BackendStallsMidResponse { at: CutPos },
+    /// the client sends a prefix of the request head, then waits -> 408
+    ClientStopsMidHead(u32),
+    /// the client sends the head and a prefix of the body, then waits -> 408
+    ClientStopsMidBody(u32),
+    /// a second connection of the same IP to a cluster limited to one -> 429
+    PerIpLimit,
+}
+
+impl Cause {
+    fn label(&self) -> &'static str {
+        match self {
+            Cause::Normal => "normal",
+            Cause::NoRoute => "no_route",
+            Cause::Deny => "deny",
+            Cause::NoBackend => "no_backend",
+            Cause::BackendRefuses => "backend_refuses",
+            Cause::BackendClosesAtAccept => "backend_closes_at_accept",
+            Cause::BackendClosesWithoutAnswer { .. } => "backend_closes_without_answer",
+            Cause::BackendStalls => "backend_stalls",
+            Cause::BackendAnswersLate => "backend_answers_late",
+            Cause::BackendClosesMidRequest { .. } => "backend_closes_mid_request",
+            Cause::BackendAnswersBeforeBody => "backend_answers_before_body",
+            Cause::BackendGarbage { .. } => "backend_garbage",
+            Cause::BackendCutsResponse { at, .. } => {
+                if matches!(at, CutPos::StatusLine(_) | CutPos::Headers(_)) { "backend_cuts_head" } else { "backend_cuts_body" }
+            }
+            Cause::BackendStallsMidResponse { .. } => "backend_stalls_mid_response",
+            Cause::ClientStopsMidHead(_) => "client_stops_mid_head",
+            Cause::ClientStopsMidBody(_) => "client_stops_mid_body",
+            Cause::PerIpLimit => "per_ip_limit",
+        }
+    }
+    fn is_fault(&self) -> bool {
+        *self != Cause::Normal
+    }
+    fn host(&self) -> &'static str {
+        match self {
+            Cause::NoRoute => "nohost.lab",
+            Cause::Deny => "deny.lab",
+            Cause::NoBackend => "nb.lab",
+            Cause::BackendRefuses => "rf.lab",
+            Cause::BackendClosesAtAccept => "cb.lab",
+            Cause::PerIpLimit => "lim.lab",
+            _ => "c0.lab",
+        }
+    }
+    /// the request is meant to reach the programmable backend of cluster c0
+    fn uses_c0(&self) -> bool {
+        self.host() == "c0.lab"
+    }
+}
+
+#[derive(Clone, Debug, Serialize, Deserialize)]
+pub struct Step {
+    pub cause: Cause,
+    /// request body (0 and not chunked = GET without body)
+    pub req_len: usize,
+    pub req_chunked: Option<Vec<usize>>,
+    pub resp_len: usize,
+    pub resp_framing: BodyFraming,
+    /// the backend adds `Connection: close` to a Content-Length / chunked response (and closes after it)
+    pub resp_conn_close: bool,
+    /// the backend closes its keep-alive connection silently after the complete response
+    pub backend_closes_after: bool,
+    /// regression files only (never generated): the second half of the request body is itself a complete
+    /// request `GET /smuggled` for cluster c0 (used with BackendAnswersBeforeBody and a Content-Length body)
+    #[serde(default)]
+    pub body_is_request: bool,
+}
+
+#[derive(Clone, Debug, Serialize, Deserialize)]
+pub struct Case {
+    pub seed: u64,
+    /// use the listener whose 401/404/429/502/503/504 templates keep the client connection alive
+    pub keepalive_answers: bool,
+    pub steps: Vec<Step>,
+    /// do not exclude the shapes of known findings (regression files of known findings set this)
+    #[serde(default)]
+    pub strict: bool,
+}
+
+fn chunk_sizes() -> impl Strategy<Value = Vec<usize>> {
+    prop::collection::vec(prop_oneof![Just(1usize), 1usize..64, 64usize..5000, Just(16384), 5000usize..20000], 1..4)
+}
+
+fn body_len(max: usize) -> impl Strategy<Value = usize> {
+    prop_oneof![2 => 0usize..3, 4 => 3usize..600, 2 => 600usize..max.max(601), 1 => prop_oneof![Just(16383usize), Just(16384), Just(16393), Just(16394)]]
+}
+
+fn cut_pos() -> impl Strategy<Value = CutPos> {
+    prop_oneof![
+        2 => any::<u32>().prop_map(CutPos::StatusLine),
+        3 => any::<u32>().prop_map(CutPos::Headers),
+        2 => Just(CutPos::HeadEnd),
+        5 => any::<u32>().prop_map(CutPos::Body),
+        2 => Just(CutPos::BodyMinus1),
+    ]
+}
+
+fn fault() -> impl Strategy<Value = Cause> {
+    prop_oneof![
+        3 => Just(Cause::NoRoute),
+        3 => Just(Cause::Deny),
+        3 => Just(Cause::NoBackend),
+        3 => Just(Cause::BackendRefuses),
+        3 => Just(Cause::BackendClosesAtAccept),
+        4 => any::<bool>().prop_map(|reset| Cause::BackendClosesWithoutAnswer { reset }),
+        3 => Just(Cause::BackendStalls),
+        2 => Just(Cause::BackendAnswersLate),
+        4 => (any::<u32>(), any::<bool>()).prop_map(|(kind, linger)| Cause::BackendGarbage { kind, linger }),
+        3 => any::<bool>().prop_map(|reset| Cause::BackendClosesMidRequest { reset }),
+        3 => Just(Cause::BackendAnswersBeforeBody),
+        12 => (cut_pos(), any::<bool>(), prop::bool::weighted(0.6)).prop_map(|(at, reset, pause)| Cause::BackendCutsResponse { at, reset, pause }),
+        2 => cut_pos().prop_map(|at| Cause::BackendStallsMidResponse { at }),
+        2 => any::<u32>().prop_map(Cause::ClientStopsMidHead),
+        2 => any::<u32>().prop_map(Cause::ClientStopsMidBody),
+        3 => Just(Cause::PerIpLimit),
+    ]
+}
+
+fn step_with(cause: impl Strategy<Value = Cause>) -> impl Strategy<Value = Step> {
+    (
+        cause,
+        (body_len(40_000), prop_oneof![3 => Just(None), 2 => chunk_sizes().prop_map(Some)]),
+        (
+            body_len(60_000),
+            prop_oneof![4 => Just(BodyFraming::ContentLength), 4 => chunk_sizes().prop_map(BodyFraming::Chunked), 1 => Just(BodyFraming::CloseDelimited)],
+            prop::bool::weighted(0.25),
+            prop::bool::weighted(0.25),
+        ),
+    )
+        .prop_map(|(cause, (req_len, req_chunked), (resp_len, resp_framing, resp_conn_close, backend_closes_after))| {
+            normalise(Step { cause, req_len, req_chunked, resp_len, resp_framing, resp_conn_close, backend_closes_after, body_is_request: false })
+        })
+}
+
+/// Make a step self-consistent (by construction, not by filtering).
+fn normalise(mut s: Step) -> Step {
+    match s.cause {
+        Cause::Normal => {}
+        Cause::BackendCutsResponse { .. } | Cause::BackendStallsMidResponse { .. } => {
+            // a cut of a close-delimited response is a clean end by definition: only length-delimited framings
+            if s.resp_framing == BodyFraming::CloseDelimited {
+                s.resp_framing = BodyFraming::ContentLength;
+            }
+            s.resp_len = s.resp_len.max(2);
+            s.req_len = s.req_len.min(1000);
+            s.backend_closes_after = false;
+        }
+        Cause::ClientStopsMidBody(_) | Cause::BackendClosesMidRequest { .. } => {
+            s.req_len = s.req_len.clamp(2, 1000);
+            s.backend_closes_after = false;
+        }
+        Cause::BackendAnswersBeforeBody => {
+            s.req_len = s.req_len.clamp(2, 1000);
+        }
+        _ => {
+            // a proxy answer may close the connection while the request body is still in flight: the
+            // kernel then resets and may discard the answer. Keep these requests in one small write.
+            s.req_len = s.req_len.min(1000);
+            s.backend_closes_after = false;
+        }
+    }
+    if s.resp_framing == BodyFraming::CloseDelimited {
+        s.resp_conn_close = false;
+        s.backend_closes_after = false;
+    }
+    if s.resp_conn_close {
+        s.backend_closes_after = false;
+    }
+    s
+}
+
+pub fn strategy() -> impl Strategy<Value = Case> {
+    (
+        any::<u64>(),
+        any::<bool>(),
+        step_with(fault()),
+        prop::collection::vec(step_with(prop_oneof![3 => Just(Cause::Normal), 2 => fault()]), 0..4),
+        any::<u32>(),
+    )
+        .prop_map(|(seed, keepalive_answers, f, mut others, pos)| {
+            let at = engine::pick_idx(pos, others.len() + 1);
+            others.insert(at, f);
+            Case { seed, keepalive_answers, steps: others, strict: false }
+        })
+}
+
+// ------------------------------------------------------------------ lab
+
+const FRONT_TIMEOUT: u32 = 3;
+const BACK_TIMEOUT: u32 = 2;
+const CONNECT_TIMEOUT: u32 = 1;
+const REQUEST_TIMEOUT: u32 = 2;
+/// what the property's "beyond the configured timeouts" is observed to
+const SLACK: Duration = Duration::from_secs(3);
+
+fn lab_config() -> LabConfig {
+    LabConfig { front_timeout: FRONT_TIMEOUT, back_timeout: BACK_TIMEOUT, connect_timeout: CONNECT_TIMEOUT, request_timeout: REQUEST_TIMEOUT, ..LabConfig::default() }
+}
+
+/// What a programmable mock backend does with the request carrying `x-lab-req: <n>`.
+#[derive(Clone, Debug)]
+enum Act {
+    Respond { bytes: Vec<u8>, cut: Option<usize>, reset: bool, pause_before_close: bool, stall_after_cut: bool, close_after: bool, delay_ms: u64 },
+    CloseWithoutAnswer { reset: bool },
+    Stall,
+    Garbage { bytes: Vec<u8>, linger: bool },
+    /// as soon as the request head is read
+    CloseAtHead { reset: bool },
+    /// as soon as the request head is read: the complete response; the request is read to its end afterwards
+    RespondAtHead { bytes: Vec<u8>, close_after: bool },
+}
+
+#[derive(Clone, Debug)]
+struct Rec {
+    backend: usize,
+    lab_req: Option<usize>,
+    complete: bool,
+    body: Vec<u8>,
+    start_line: String,
+    invalid: Option<String>,
+}
+
+#[derive(Default)]
+struct Shared {
+    actions: BTreeMap<usize, Act>,
+    recorded: Vec<Rec>,
+}
+
+/// keep the connection open without sending anything until the peer closes it (or 20 s)
+fn stall_until_peer_closes(s: &mut TcpStream) {
+    let end = Instant::now() + Duration::from_secs(20);
+    let mut tmp = [0u8; 4096];
+    while Instant::now() < end {
+        match s.read(&mut tmp) {
+            Ok(0) => return,
+            Ok(_) => {}
+            Err(e) if matches!(e.kind(), std::io::ErrorKind::WouldBlock | std::io::ErrorKind::TimedOut | std::io::ErrorKind::Interrupted) => {}
+            Err(_) => return,
+        }
+    }
+}
+
+fn serve(backend: usize, stream: TcpStream, shared: Arc<Mutex<Shared>>) {
+    let mut w = stream.try_clone().expect("clone");
+    let mut c = H1Conn::new(stream);
+    loop {
+        // ---- actions taken on the request head, before the body has arrived
+        let mut answered_at_head: Option<bool> = None;
+        let head_end = Instant::now() + Duration::from_secs(15);
+        let head = loop {
+            if let Some(p) = c.pending().windows(4).position(|x| x == b"\r\n\r\n") {
+                break Some(String::from_utf8_lossy(&c.pending()[..p]).to_string());
+            }
+            if c.eof || Instant::now() >= head_end {
+                break None;
+            }
+            let mut tmp = [0u8; 16384];
+            match w.read(&mut tmp) {
+                Ok(0) => c.eof = true,
+                Ok(n) => {
+                    c.buf.extend_from_slice(&tmp[..n]);
+                    c.raw.extend_from_slice(&tmp[..n]);
+                }
+                Err(e) if matches!(e.kind(), std::io::ErrorKind::WouldBlock | std::io::ErrorKind::TimedOut | std::io::ErrorKind::Interrupted) => {}
+                Err(_) => c.eof = true,
+            }
+        };
+        if let Some(head) = head {
+            let n = head.lines().find_map(|l| l.strip_prefix("x-lab-req: ").and_then(|v| v.trim().parse::<usize>().ok()));
+            let at_head = n.and_then(|n| shared.lock().unwrap().actions.get(&n).cloned());
+            match at_head {
+                Some(Act::CloseAtHead { reset }) => {
+                    shared.lock().unwrap().recorded.push(Rec { backend, lab_req: n, complete: false, body: vec![], start_line: head.lines().next().unwrap_or("").to_string(), invalid: None });
+                    if reset {
+                        drop(c);
+                        h1::reset(w);
+                    }
+                    return;
+                }
+                Some(Act::RespondAtHead { bytes, close_after }) => {
+                    let _ = w.write_all(&bytes);
+                    let _ = w.flush();
+                    answered_at_head = Some(close_after);
+                }
+                _ => {}
+            }
+        }
+        let msg = match c.next_message(Kind::Request, Instant::now() + Duration::from_secs(15)) {
+            ReadOutcome::Message(m) => m,
+            ReadOutcome::Eof | ReadOutcome::IdleTimeout | ReadOutcome::Reset(_) => return,
+            ReadOutcome::Invalid(why, bytes) => {
+                // a request head that never completed is recorded as incomplete, anything else as garbage
+                let text = String::from_utf8_lossy(&bytes).to_string();
+                let lab_req = text.lines().find_map(|l| l.strip_prefix("x-lab-req: ").and_then(|v| v.trim().parse::<usize>().ok()));
+                shared.lock().unwrap().recorded.push(Rec { backend, lab_req, complete: false, body: vec![], start_line: text.lines().next().unwrap_or("").to_string(), invalid: Some(why) });
+                return;
+            }
+        };
+        let lab_req = msg.header("x-lab-req").and_then(|v| v.trim().parse::<usize>().ok());
+        let complete = msg.end == End::Clean;
+        let action = {
+            let mut g = shared.lock().unwrap();
+            g.recorded.push(Rec { backend, lab_req, complete, body: msg.body.clone(), start_line: msg.start_line.clone(), invalid: None });
+            lab_req.and_then(|n| g.actions.get(&n).cloned())
+        };
+        if !complete {
+            return;
+        }
+        if let Some(close_after) = answered_at_head {
+            if close_after {
+                return;
+            }
+            continue;
+        }
+        let action = action.unwrap_or_else(|| Act::Respond { bytes: response_bytes(lab_req.unwrap_or(0), 0, 0, &BodyFraming::ContentLength, false).0, cut: None, reset: false, pause_before_close: false, stall_after_cut: false, close_after: false, delay_ms: 0 });
+        match action {
+            Act::CloseWithoutAnswer { reset } | Act::CloseAtHead { reset } => {
+                if reset {
+                    drop(c);
+                    h1::reset(w);
+                }
+                return;
+            }
+            Act::RespondAtHead { .. } => return,
+            Act::Stall => {
+                stall_until_peer_closes(&mut w);
+                return;
+            }
+            Act::Garbage { bytes, linger } => {
+                let _ = w.write_all(&bytes);
+                let _ = w.flush();
+                if linger {
+                    std::thread::sleep(Duration::from_millis(50));
+                }
+                return;
+            }
+            Act::Respond { bytes, cut, reset, pause_before_close, stall_after_cut, close_after, delay_ms } => {
+                if delay_ms > 0 {
+                    std::thread::sleep(Duration::from_millis(delay_ms));
+                }
+                let to_send = match cut {
+                    Some(n) => &bytes[..n.min(bytes.len())],
+                    None => &bytes[..],
+                };
+                let _ = w.write_all(to_send);
+                let _ = w.flush();
+                if cut.is_some() {
+                    if stall_after_cut {
+                        stall_until_peer_closes(&mut w);
+                        return;
+                    }
+                    if pause_before_close {
+                        std::thread::sleep(Duration::from_millis(30));
+                    }
+                    if reset {
+                        drop(c);
+                        h1::reset(w);
+                    }
+                    return;
+                }
+                if close_after {
+                    return;
+                }
+            }
+        }
+    }
+}
+
+/// (serialised response, body) of the backend's 200 for request `n`
+fn response_bytes(n: usize, seed: u64, len: usize, framing: &BodyFraming, conn_close: bool) -> (Vec<u8>, Vec<u8>) {
+    let body = content(seed, len);
+    let (extra, wire) = h1::encode_body(&body, framing, &[]);
+    let mut hs: Vec<(String, String)> = vec![("x-lab-resp".into(), n.to_string())];
+    hs.extend(extra);
+    if conn_close && *framing != BodyFraming::CloseDelimited {
+        hs.push(("Connection".into(), "close".into()));
+    }
+    let mut v = h1::build_head("HTTP/1.1 200 OK", &hs);
+    v.extend_from_slice(&wire);
+    (v, body)
+}
+
+/// an address that refuses connections for as long as the returned socket lives: bound, never listening
+fn bound_not_listening() -> (SocketAddr, std::os::fd::OwnedFd) {
+    use std::os::fd::{FromRawFd, OwnedFd};
+    for _ in 0..50 {
+        let addr = lab::free_addr();
+        let fd = unsafe { libc::socket(libc::AF_INET, libc::SOCK_STREAM | libc::SOCK_CLOEXEC, 0) };
+        assert!(fd >= 0, "harness: socket()");
+        let owned = unsafe { OwnedFd::from_raw_fd(fd) };
+        let sa = libc::sockaddr_in {
+            sin_family: libc::AF_INET as libc::sa_family_t,
+            sin_port: addr.port().to_be(),
+            sin_addr: libc::in_addr { s_addr: u32::from_ne_bytes([127, 0, 0, 1]) },
+            sin_zero: [0; 8],
+        };
+        let r = unsafe { libc::bind(fd, &sa as *const _ as *const libc::sockaddr, std::mem::size_of::<libc::sockaddr_in>() as u32) };
+        if r == 0 {
+            return (addr, owned);
+        }
+    }
+    panic!("harness: could not bind a refusing address");
+}
+
+const KEEPALIVE_CODES: &[(u16, &str)] = &[(401, "Unauthorized"), (404, "Not Found"), (429, "Too Many Requests"), (502, "Bad Gateway"), (503, "Service Unavailable"), (504, "Gateway Timeout")];
+
+fn keepalive_body(code: u16) -> String {
+    format!("lab answer {code}")
+}
+
+pub struct Lab {
+    pub worker: LabWorker,
+    /// listener with sozu's default answers (all carry `Connection: close`)
+    addr_close: SocketAddr,
+    /// listener whose 401/404/429/502/503/504 templates carry a Content-Length and no `Connection: close`
+    addr_keep: SocketAddr,
+    _backends: Vec<Acceptor>,
+    _refusing: std::os::fd::OwnedFd,
+    shared: Arc<Mutex<Shared>>,
+    scenario_no: usize,
+}
+
+impl Lab {
+    pub fn new(name: &str) -> Lab {
+        let mut worker = LabWorker::start(name, lab_config(), Listeners::default(), &ConfigState::new());
+        let shared = Arc::new(Mutex::new(Shared::default()));
+        let addr_close = lab::free_addr();
+        worker.add_http_listener(addr_close, |_| {});
+        let addr_keep = lab::free_addr();
+        worker.add_http_listener(addr_keep, |l| {
+            for (code, reason) in KEEPALIVE_CODES {
+                let body = keepalive_body(*code);
+                l.answers.insert(code.to_string(), format!("HTTP/1.1 {code} {reason}\r\nContent-Length: {}\r\nX-Lab-Answer: {code}\r\n\r\n{body}", body.len()));
+            }
+        });
+        let mut backends = vec![];
+        // c0: programmable backend 0; lim: programmable backend 1, one connection per source address
+        for (i, cluster) in ["c0", "lim"].iter().enumerate() {
+            worker.add_cluster(cluster, |c| {
+                if *cluster == "lim" {
+                    c.max_connections_per_ip = Some(1);
+                }
+            });
+            let (addr, listener) = lab::bound_listener();
+            worker.add_backend(cluster, &format!("{cluster}-0"), addr);
+            let sh = shared.clone();
+            backends.push(Acceptor::spawn(listener, move |_conn, stream| serve(i, stream, sh.clone())));
+        }
+        // cb: the backend accepts and closes at once
+        worker.add_cluster("cb", |_| {});
+        let (addr, listener) = lab::bound_listener();
+        worker.add_backend("cb", "cb-0", addr);
+        backends.push(Acceptor::spawn(listener, move |_conn, stream| drop(stream)));
+        // rf: the backend address refuses connections
+        worker.add_cluster("rf", |_| {});
+        let (addr, refusing) = bound_not_listening();
+        worker.add_backend("rf", "rf-0", addr);
+        // nb: no backend at all
+        worker.add_cluster("nb", |_| {});
+        for listener in [addr_close, addr_keep] {
+            for cluster in ["c0", "lim", "cb", "rf", "nb"] {
+                worker.add_http_frontend(cluster, listener, &format!("{cluster}.lab"), "/");
+            }
+            // a frontend without a cluster denies
+            worker.must(RequestType::AddHttpFrontend(RequestHttpFrontend {
+                cluster_id: None,
+                address: listener.into(),
+                hostname: "deny.lab".to_string(),
+                path: PathRule::prefix("/".to_string()),
+                position: RulePosition::Tree.into(),
+                ..Default::default()
+            }));
+        }
+        Lab { worker, addr_close, addr_keep, _backends: backends, _refusing: refusing, shared, scenario_no: 0 }
+    }
+
+    fn recorded(&self) -> Vec<Rec> {
+        self.shared.lock().unwrap().recorded.clone()
+    }
+}
+
+// ------------------------------------------------------------------ client side
+
+struct Client {
+    w: TcpStream,
+    conn: H1Conn<TcpStream>,
+    /// requests answered so far on this connection
+    served: usize,
+}
+
+fn open(addr: SocketAddr) -> Result<Client, Failure> {
+    match h1::connect(addr, Duration::from_secs(2)) {
+        Ok(s) => {
+            let w = s.try_clone().expect("clone");
+            Ok(Client { w, conn: H1Conn::new(s), served: 0 })
+        }
+        Err(e) => Err(Failure::new("C02/connect-refused", format!("connect to the HTTP listener {addr} failed: {e}"))),
+    }
+}
+
+fn request_bytes(n: usize, host: &str, body: &[u8], chunked: &Option<Vec<usize>>) -> (Vec<u8>, usize) {
+    let mut headers = vec![("Host".to_string(), host.to_string()), ("x-lab-req".to_string(), n.to_string())];
+    let (method, wire) = if body.is_empty() && chunked.is_none() {
+        ("GET", vec![])
+    } else {
+        let framing = match chunked {
+            Some(sizes) => BodyFraming::Chunked(sizes.clone()),
+            None => BodyFraming::ContentLength,
+        };
+        let (extra, wire) = h1::encode_body(body, &framing, &[]);
+        headers.extend(extra);
+        ("POST", wire)
+    };
+    let mut bytes = h1::build_head(&format!("{method} /r{n} HTTP/1.1"), &headers);
+    let head_len = bytes.len();
+    bytes.extend_from_slice(&wire);
+    (bytes, head_len)
+}
+
+/// byte offset of a cut in a serialised response
+fn cut_offset(bytes: &[u8], at: &CutPos) -> usize {
+    let total = bytes.len();
+    let sl = bytes.windows(2).position(|w| w == b"\r\n").expect("status line");
+    let head_len = bytes.windows(4).position(|w| w == b"\r\n\r\n").expect("head") + 4;
+    match at {
+        CutPos::StatusLine(f) => 1 + engine::pick_idx(*f, sl),
+        CutPos::Headers(f) => sl + 1 + engine::pick_idx(*f, head_len - sl - 1),
+        CutPos::HeadEnd => head_len,
+        CutPos::Body(f) => (head_len + 1 + engine::pick_idx(*f, total.saturating_sub(head_len + 1))).min(total - 1),
+        CutPos::BodyMinus1 => total - 1,
+    }
+}
+
+const GARBAGE: &[&[u8]] = &[
+    b"\x00\x01\x02\x03\xff\xfe binary \r\n\r\n",
+    b"SSH-2.0-OpenSSH_9.6\r\n",
+    b"GET / HTTP/1.1\r\nHost: this.is.a.request\r\n\r\n",
+    b"200 OK\r\nContent-Length: 0\r\n\r\n",
+    b"\r\n\r\n\r\n<html>no head</html>",
+    b"HTTP/1.1 two hundred OK\r\nContent-Length: 0\r\n\r\n",
+];
+
+/// How the read of one answer ended, reduced to what the oracle distinguishes.
+enum Got {
+    /// a complete message by its own framing
+    Clean(H1Message),
+    /// the connection ended before a complete message: an abort. `partial` is what was readable of the message.
+    Abort { partial: Option<H1Message>, bytes_seen: usize, how: String },
+    /// the deadline passed with the connection still open and no complete message
+    Nothing(String),
+    /// bytes that are not an HTTP/1.1 response by the strict reading, connection aside
+    Invalid(String),
+}
+
+fn read_answer(c: &mut Client, deadline: Instant) -> Got {
+    let before = c.conn.raw.len();
+    let out = c.conn.next_message(Kind::Response { head_request: false }, deadline);
+    let seen = c.conn.raw.len() - before;
+    let text = h1::describe(&out);
+    match out {
+        ReadOutcome::Message(m) => match &m.end {
+            End::Clean => Got::Clean(m),
+            End::Truncated(why) => {
+                if c.conn.eof {
+                    Got::Abort { how: why.clone(), bytes_seen: seen, partial: Some(m) }
+                } else {
+                    Got::Nothing(format!("{text}; the connection is still open"))
+                }
+            }
+        },
+        ReadOutcome::Eof => Got::Abort { partial: None, bytes_seen: 0, how: "closed without a byte".into() },
+        ReadOutcome::Reset(b) => Got::Abort { partial: None, bytes_seen: b.len().max(seen), how: "connection reset".into() },
+        ReadOutcome::IdleTimeout => Got::Nothing(text),
+        ReadOutcome::Invalid(why, _) => {
+            if c.conn.eof && why.starts_with("connection closed inside a message head") {
+                Got::Abort { partial: None, bytes_seen: seen, how: why }
+            } else if why.starts_with("deadline passed") {
+                Got::Nothing(text)
+            } else {
+                Got::Invalid(format!("{text}; everything received for this request: {:?}", engine::truncate(&String::from_utf8_lossy(&c.conn.raw[before..]), 900)))
+            }
+        }
+    }
+}
+
+/// status code of a second `HTTP/1.1 <code>` status line in the bytes received for one request
+fn second_status_line(raw: &[u8]) -> Option<u16> {
+    let pat = b"HTTP/1.1 ";
+    let mut hits = raw.windows(pat.len()).enumerate().filter(|(_, w)| w == pat).map(|(i, _)| i);
+    let _first = hits.next()?;
+    let second = hits.next()?;
+    std::str::from_utf8(raw.get(second + pat.len()..second + pat.len() + 3)?).ok()?.parse().ok()
+}
+
+fn describe_got(g: &Got) -> String {
+    match g {
+        Got::Clean(m) => format!("a complete message {:?} ({} body bytes, framing {:?}, headers {:?})", m.start_line, m.body.len(), m.framing, m.headers),
+        Got::Abort { partial, bytes_seen, how } => format!(
+            "an abort ({how}) after {bytes_seen} bytes{}",
+            partial.as_ref().map(|m| format!(" of {:?} ({} body bytes, framing {:?})", m.start_line, m.body.len(), m.framing)).unwrap_or_default()
+        ),
+        Got::Nothing(t) => format!("no answer before the deadline ({t})"),
+        Got::Invalid(t) => format!("bytes that are not HTTP/1.1 ({t})"),
+    }
+}
+
+/// A proxy-generated answer must be a well-formed HTTP/1.1 response of the given status.
+fn check_proxy_answer(i: usize, cause: &str, m: &H1Message, keepalive_listener: bool) -> Result<(), Failure> {
+    let code = m.status().unwrap_or(0);
+    if !m.start_line.starts_with("HTTP/1.1 ") || m.start_line.len() < 12 {
+        fail!("C02/proxy-answer-malformed", "request {i} ({cause}): status line {:?}", m.start_line);
+    }
+    if !m.complaints.is_empty() {
+        fail!("C02/proxy-answer-malformed", "request {i} ({cause}): answer {:?} has framing defects: {:?}", m.start_line, m.complaints);
+    }
+    let announces_close = m.headers_named("connection").iter().any(|v| v.to_ascii_lowercase().split(',').any(|t| t.trim() == "close"));
+    if m.framing == Framing::UntilClose && !announces_close {
+        fail!("C02/proxy-answer-malformed", "request {i} ({cause}): answer {:?} has neither a length nor `Connection: close`: {:?}", m.start_line, m.headers);
+    }
+    if m.body.windows(9).any(|w| w == b"HTTP/1.1 ") {
+        fail!("C02/second-response", "request {i} ({cause}): the body of the {code} answer contains another status line: {:?}", engine::truncate(&String::from_utf8_lossy(&m.body), 600));
+    }
+    if keepalive_listener && KEEPALIVE_CODES.iter().any(|(c, _)| *c == code) && m.body != keepalive_body(code).as_bytes() {
+        fail!("C02/proxy-answer-malformed", "request {i} ({cause}): the listener's {code} template has the body {:?}, the client received {:?}", keepalive_body(code), engine::truncate(&String::from_utf8_lossy(&m.body), 300));
+    }
+    Ok(())
+}
+
+fn announces_close(m: &H1Message) -> bool {
+    m.framing == Framing::UntilClose || m.headers_named("connection").iter().any(|v| v.to_ascii_lowercase().split(',').any(|t| t.trim() == "close"))
+}
+
+/// After an answer that ends the connection: nothing but the close may follow.
+fn expect_nothing_more(i: usize, cause: &str, c: &mut Client, rep_classes: &mut Vec<&'static str>) -> Result<(), Failure> {
+    match c.conn.next_message(Kind::Response { head_request: false }, Instant::now() + Duration::from_millis(400)) {
+        ReadOutcome::Eof | ReadOutcome::Reset(_) => Ok(()),
+        ReadOutcome::IdleTimeout => {
+            rep_classes.push("close_announced_but_connection_left_open");
+            Ok(())
+        }
+        other => Err(Failure::new("C02/second-response", format!("request {i} ({cause}): after the answer that ends the use of this connection, the client received more: {}", h1::describe(&other)))),
+    }
+}
+
+pub fn scenario(lab: &mut Lab, case: &Case) -> CheckResult {
+    let mut rep = CaseReport::default();
+    if !lab.worker.alive() {
+        return Err(Failure::new("C02/worker-died", format!("the worker thread is gone: {:?}", lab.worker.join())));
+    }
+    if case.steps.is_empty() || case.steps.len() > 8 {
+        return Ok(rep);
+    }
+    lab.scenario_no += 1;
+    let base = lab.scenario_no * 32;
+    let addr = if case.keepalive_answers { lab.addr_keep } else { lab.addr_close };
+    let mut classes: Vec<&'static str> = vec![];
+    let mut owned_classes: Vec<String> = vec![];
+
+    // ---- plan the backend's behaviour
+    struct Plan {
+        n: usize,
+        resp_body: Vec<u8>,
+        req_body: Vec<u8>,
+        cut: Option<usize>,
+        resp_total: usize,
+        resp_head_len: usize,
+        /// `Connection: close` on the backend's response as played
+        conn_close: bool,
+    }
+    let mut excluded = 0u64;
+    let mut plans: Vec<Plan> = vec![];
+    {
+        let mut actions = BTreeMap::new();
+        for (i, s) in case.steps.iter().enumerate() {
+            let n = base + i;
+            let resp_seed = case.seed ^ (0xA000 + i as u64);
+            let mut conn_close = s.resp_conn_close;
+            let (mut bytes, resp_body) = response_bytes(n, resp_seed, s.resp_len, &s.resp_framing, conn_close);
+            let mut req_body = content(case.seed ^ (0xB000 + i as u64), s.req_len);
+            if s.body_is_request && s.req_chunked.is_none() {
+                let inner = format!("GET /smuggled HTTP/1.1\r\nHost: c0.lab\r\nx-lab-req: {}\r\n\r\n", base + 24 + i).into_bytes();
+                req_body = content(case.seed ^ (0xB000 + i as u64), inner.len());
+                req_body.extend_from_slice(&inner);
+            }
+            let head_len_of = |b: &[u8]| b.windows(4).position(|w| w == b"\r\n\r\n").map(|p| p + 4).unwrap_or(b.len());
+            let mut cut = None;
+            if let Cause::BackendCutsResponse { at, .. } = &s.cause {
+                // known findings C02/proxy-answer-appended-to-started-response and
+                // C02/truncated-body-presented-complete: a response that carries `Connection: close` and is
+                // cut after its head. Excluded by construction: the same cut is played without the header.
+                if conn_close && !case.strict && cut_offset(&bytes, at) >= head_len_of(&bytes) {
+                    conn_close = false;
+                    excluded += 1;
+                    bytes = response_bytes(n, resp_seed, s.resp_len, &s.resp_framing, false).0;
+                }
+                cut = Some(cut_offset(&bytes, at));
+            }
+            if let Cause::BackendStallsMidResponse { at } = &s.cause {
+                cut = Some(cut_offset(&bytes, at));
+            }
+            let resp_head_len = head_len_of(&bytes);
+            let resp_total = bytes.len();
+            let act = match &s.cause {
+                Cause::BackendClosesWithoutAnswer { reset } => Some(Act::CloseWithoutAnswer { reset: *reset }),
+                Cause::BackendStalls => Some(Act::Stall),
+                Cause::BackendGarbage { kind, linger } => Some(Act::Garbage { bytes: GARBAGE[engine::pick_idx(*kind, GARBAGE.len())].to_vec(), linger: *linger }),
+                Cause::BackendCutsResponse { reset, pause, .. } => Some(Act::Respond { bytes, cut, reset: *reset, pause_before_close: *pause, stall_after_cut: false, close_after: true, delay_ms: 0 }),
+                Cause::BackendStallsMidResponse { .. } => Some(Act::Respond { bytes, cut, reset: false, pause_before_close: false, stall_after_cut: true, close_after: true, delay_ms: 0 }),
+                Cause::BackendClosesMidRequest { reset } => Some(Act::CloseAtHead { reset: *reset }),
+                Cause::BackendAnswersBeforeBody => Some(Act::RespondAtHead { bytes, close_after: conn_close || s.resp_framing == BodyFraming::CloseDelimited }),
+                Cause::BackendAnswersLate => Some(Act::Respond {
+                    bytes,
+                    cut: None,
+                    reset: false,
+                    pause_before_close: false,
+                    stall_after_cut: false,
+                    close_after: conn_close || s.resp_framing == BodyFraming::CloseDelimited,
+                    delay_ms: BACK_TIMEOUT as u64 * 1000 + 700,
+                }),
+                Cause::Normal => Some(Act::Respond {
+                    bytes,
+                    cut: None,
+                    reset: false,
+                    pause_before_close: false,
+                    stall_after_cut: false,
+                    close_after: s.backend_closes_after || conn_close || s.resp_framing == BodyFraming::CloseDelimited,
+                    delay_ms: 0,
+                }),
+                // the request must not reach a programmable backend, or reaches it incomplete
+                _ => None,
+            };
+            if let Some(a) = act {
+                actions.insert(n, a);
+            }
+            plans.push(Plan { n, resp_body, req_body, cut, resp_total, resp_head_len, conn_close });
+        }
+        let mut g = lab.shared.lock().unwrap();
+        g.actions = actions;
+        g.recorded.clear();
+    }
+
+    // ---- play the steps
+    let mut client: Option<Client> = None;
+    // the previous request on this client connection left sozu with a backend keep-alive connection
+    // that the backend has closed since
+    let mut backend_conn_silently_closed = false;
+    // the previous request on this client connection ended in a backend timeout answered with a
+    // keep-alive 504: is the timed-out backend connection out of use?
+    let mut after_keepalive_504 = false;
+    let mut incomplete_at_backend_expected: Vec<usize> = vec![];
+    let mut must_not_reach_backend: Vec<usize> = vec![];
+    let mut must_reach_backend: Vec<(usize, &'static str)> = vec![];
+    let mut normal_ok: Vec<usize> = vec![];
+
+    for (i, s) in case.steps.iter().enumerate() {
+        let p = &plans[i];
+        let label = s.cause.label();
+        let reused_connection = client.is_some();
+        if client.is_none() {
+            client = Some(open(addr)?);
+            backend_conn_silently_closed = false;
+            after_keepalive_504 = false;
+        }
+        let race_502 = backend_conn_silently_closed && s.cause.uses_c0();
+        let mut answered_504 = false;
+        let step: Result<bool, Failure> = (|| -> Result<bool, Failure> {
+            let first_on_conn = client.as_ref().unwrap().served == 0;
+            let (bytes, head_len) = request_bytes(p.n, s.cause.host(), &p.req_body, &s.req_chunked);
+
+            // a connection of the same source address that holds the only slot of cluster `lim`
+            let mut holder: Option<Client> = None;
+            if s.cause == Cause::PerIpLimit {
+                for attempt in 0..20 {
+                    let mut h = open(addr)?;
+                    let (hb, _) = request_bytes(base + 16 + i, "lim.lab", &[], &None);
+                    let _ = h.w.write_all(&hb);
+                    match read_answer(&mut h, Instant::now() + Duration::from_secs(5)) {
+                        Got::Clean(m) if m.status() == Some(200) => {
+                            holder = Some(h);
+                            break;
+                        }
+                        // the slot of a connection closed a moment ago has not been released yet
+                        Got::Clean(m) if m.status() == Some(429) && attempt < 19 => std::thread::sleep(Duration::from_millis(30)),
+                        other => fail!("C02/per-ip-slot-not-acquired", "request {i}: the first connection to the limited cluster was not served: {}", describe_got(&other)),
+                    }
+                }
+            }
+
+            // what is written
+            let to_write: &[u8] = match &s.cause {
+                Cause::ClientStopsMidHead(f) => &bytes[..1 + engine::pick_idx(*f, head_len - 1)],
+                Cause::ClientStopsMidBody(f) => &bytes[..head_len + engine::pick_idx(*f, bytes.len() - head_len)],
+                Cause::BackendClosesMidRequest { .. } | Cause::BackendAnswersBeforeBody => &bytes[..head_len + (bytes.len() - head_len) / 2],
+                _ => &bytes[..],
+            };
+            let c = client.as_mut().unwrap();
+            if let Err(e) = h1::write_all(&mut c.w, to_write) {
+                fail!("C02/client-write-failed", "request {i} ({label}): writing the request failed: {e} (connection reused: {reused_connection})");
+            }
+            let sent_at = Instant::now();
+            let governing = match &s.cause {
+                Cause::BackendStalls | Cause::BackendAnswersLate => Duration::from_secs(BACK_TIMEOUT as u64),
+                // observed: once a response has started, the backend timeout ends the backend side only; the
+                // client connection is closed by the front timeout that follows (the same holds after a cut:
+                // the abort reaches the client with the front timeout)
+                Cause::BackendStallsMidResponse { .. } => Duration::from_secs((BACK_TIMEOUT + FRONT_TIMEOUT) as u64),
+                Cause::ClientStopsMidHead(_) => Duration::from_secs(if first_on_conn { REQUEST_TIMEOUT } else { FRONT_TIMEOUT } as u64),
+                Cause::ClientStopsMidBody(_) | Cause::BackendCutsResponse { .. } => Duration::from_secs(FRONT_TIMEOUT.max(BACK_TIMEOUT) as u64),
+                Cause::BackendRefuses | Cause::BackendClosesAtAccept | Cause::BackendClosesMidRequest { .. } => Duration::from_secs(CONNECT_TIMEOUT as u64),
+                Cause::Normal | Cause::BackendAnswersBeforeBody => Duration::from_secs(4),
+                _ => Duration::ZERO,
+            };
+            let raw_before = c.conn.raw.len();
+            let got = read_answer(c, sent_at + governing + SLACK);
+            let took = sent_at.elapsed();
+            let what = describe_got(&got);
+            let ctx = format!(
+                "request {i} of {} ({label}{}, {} on its connection, listener with {} answers, after {:.2} s)",
+                case.steps.len(),
+                match &s.cause {
+                    Cause::BackendCutsResponse { reset, pause, .. } => format!(
+                        ": {} response{} of {} bytes cut at {} (head {} bytes), {}{}",
+                        s.resp_framing_name(),
+                        if p.conn_close { " with `Connection: close`" } else { "" },
+                        p.resp_total,
+                        p.cut.unwrap_or(0),
+                        p.resp_head_len,
+                        if *reset { "RST" } else { "FIN" },
+                        if *pause { " 30 ms later" } else { " at once" }
+                    ),
+                    Cause::BackendStallsMidResponse { .. } => format!(": {} response of {} bytes stops at {} (head {} bytes)", s.resp_framing_name(), p.resp_total, p.cut.unwrap_or(0), p.resp_head_len),
+                    Cause::ClientStopsMidHead(_) | Cause::ClientStopsMidBody(_) | Cause::BackendClosesMidRequest { .. } | Cause::BackendAnswersBeforeBody => {
+                        format!(": {} of {} request bytes sent (head {head_len})", to_write.len(), bytes.len())
+                    }
+                    _ => String::new(),
+                },
+                if first_on_conn { "first".to_string() } else { format!("number {}", c.served + 1) },
+                if case.keepalive_answers { "keep-alive" } else { "default" },
+                took.as_secs_f64()
+            );
+            // a proxy answer written behind a response that had already started
+            let appended = second_status_line(&c.conn.raw[raw_before..]);
+            let raw_text = |c: &Client| engine::truncate(&String::from_utf8_lossy(&c.conn.raw[raw_before..]), 500);
+            if let Got::Nothing(_) = &got {
+                fail!(format!("C02/unanswered-beyond-timeout:{label}"), "{ctx}: {what}; governing timeout {} s + {} s", governing.as_secs(), SLACK.as_secs());
+            }
+            if let Got::Invalid(_) = &got {
+                if let Some(code) = appended {
+                    fail!(format!("C02/proxy-answer-appended-to-started-response:{code}"), "{ctx}: a {code} answer was written behind the response that had already started: {what}");
+                }
+                fail!(format!("C02/answer-not-http:{label}"), "{ctx}: {what}");
+            }
+
+            // ---- the admissible set for this cause
+            let mut keep_connection = false;
+            let status_of = |g: &Got| -> String {
+                match g {
+                    Got::Clean(m) => m.status().map(|s| s.to_string()).unwrap_or_else(|| "none".into()),
+                    Got::Abort { .. } => "abort".into(),
+                    _ => "none".into(),
+                }
+            };
+            // the backend closed its idle keep-alive connection after the previous response and the proxy used
+            // it again: two causes at once, a 502 for this request is admissible whatever its own cause
+            if race_502 {
+                if let Got::Clean(m) = &got {
+                    if m.status() == Some(502) {
+                        check_proxy_answer(i, label, m, case.keepalive_answers)?;
+                        classes.push("close_between_keepalive->502");
+                        if matches!(s.cause, Cause::ClientStopsMidHead(_) | Cause::ClientStopsMidBody(_) | Cause::BackendClosesMidRequest { .. } | Cause::BackendAnswersBeforeBody) {
+                            // the connection holds half a request: the client gives it up
+                            incomplete_at_backend_expected.push(i);
+                            return Ok(false);
+                        }
+                        let keep = !announces_close(m);
+                        if !keep {
+                            expect_nothing_more(i, label, c, &mut classes)?;
+                        }
+                        return Ok(keep);
+                    }
+                }
+            }
+            match &s.cause {
+                Cause::BackendAnswersBeforeBody => match &got {
+                    Got::Clean(m) if m.status() == Some(200) => {
+                        if m.header("x-lab-resp") != Some(p.n.to_string().as_str()) {
+                            fail!("C02/response-of-another-request", "{ctx}: answered with the response of request {:?} (this one is {})", m.header("x-lab-resp"), p.n);
+                        }
+                        if let Some(off) = first_mismatch(&m.body, &p.resp_body) {
+                            fail!("C02/relayed-body-differs", "{ctx}: the backend sent a {}-byte body ({}), the client received {} bytes ending cleanly (framing {:?}); first difference at offset {off}", p.resp_body.len(), s.resp_framing_name(), m.body.len(), m.framing);
+                        }
+                        keep_connection = !announces_close(m);
+                        if !case.strict {
+                            // known finding C02/rest-of-request-answered-as-new-request, excluded by construction:
+                            // the client does not send the rest of its request and gives the connection up
+                            excluded += 1;
+                            classes.push("early_answer->client_gives_up(known)");
+                            return Ok(false);
+                        }
+                        // the client now finishes its request; the proxy may close the connection (it answered
+                        // before the request ended) or swallow the rest, but must not answer it as a new request
+                        let rest_written = h1::write_all(&mut c.w, &bytes[to_write.len()..]).is_ok();
+                        match c.conn.next_message(Kind::Response { head_request: false }, Instant::now() + Duration::from_millis(if keep_connection { 120 } else { 400 })) {
+                            ReadOutcome::IdleTimeout => {
+                                classes.push(if keep_connection { "early_answer->connection_kept" } else { "close_announced_but_connection_left_open" });
+                            }
+                            ReadOutcome::Eof | ReadOutcome::Reset(_) => {
+                                classes.push("early_answer->connection_closed");
+                                keep_connection = false;
+                            }
+                            other => {
+                                std::thread::sleep(Duration::from_millis(20));
+                                let seen: Vec<(String, bool, usize)> = lab.shared.lock().unwrap().recorded.iter().map(|r| (r.start_line.clone(), r.complete, r.body.len())).collect();
+                                fail!(
+                                    "C02/rest-of-request-answered-as-new-request",
+                                    "{ctx}: the response was relayed before the request body had ended; the client then sent the remaining {} body bytes (write ok: {rest_written}) and received a second answer: {}{}",
+                                    bytes.len() - to_write.len(),
+                                    h1::describe(&other),
+                                    if s.body_is_request { format!("; messages read by the backend (start line, complete, body bytes): {seen:?}") } else { String::new() }
+                                )
+                            }
+                        }
+                    }
+                    _ => fail!(format!("C02/status-for-cause:{label}:{}", status_of(&got)), "{ctx}: expected the backend's 200 with its {}-byte body, got {what}", p.resp_body.len()),
+                },
+                Cause::Normal => {
+                    match &got {
+                        Got::Clean(m) if m.status() == Some(200) => {
+                            if m.header("x-lab-resp") != Some(p.n.to_string().as_str()) {
+                                fail!("C02/response-of-another-request", "{ctx}: answered with the response of request {:?} (this one is {})", m.header("x-lab-resp"), p.n);
+                            }
+                            if let Some(off) = first_mismatch(&m.body, &p.resp_body) {
+                                fail!(
+                                    "C02/relayed-body-differs",
+                                    "{ctx}: the backend sent a {}-byte body ({}), the client received {} bytes ending cleanly (framing {:?}); first difference at offset {off}",
+                                    p.resp_body.len(),
+                                    s.resp_framing_name(),
+                                    m.body.len(),
+                                    m.framing
+                                );
+                            }
+                            normal_ok.push(i);
+                            keep_connection = !announces_close(m);
+                            if !keep_connection {
+                                expect_nothing_more(i, label, c, &mut classes)?;
+                            }
+                        }
+                        _ => fail!(format!("C02/status-for-cause:{label}:{}", status_of(&got)), "{ctx}: expected the backend's 200 with its {}-byte body, got {what}", p.resp_body.len()),
+                    }
+                    if race_502 && normal_ok.contains(&i) {
+                        classes.push("close_between_keepalive->200");
+                    }
+                }
+                Cause::BackendCutsResponse { .. } | Cause::BackendStallsMidResponse { .. } => {
+                    must_reach_backend.push((i, label));
+                    let cut = p.cut.unwrap_or(0);
+                    let head_complete = cut >= p.resp_head_len;
+                    match &got {
+                        // a 502 as the only answer: nothing of the backend's response had been relayed
+                        Got::Clean(m) if m.status() == Some(502) => {
+                            check_proxy_answer(i, label, m, case.keepalive_answers)?;
+                            classes.push(if head_complete { "cut_in_body->502_nothing_relayed" } else { "cut_in_head->502" });
+                            keep_connection = !announces_close(m);
+                            if !keep_connection {
+                                expect_nothing_more(i, label, c, &mut classes)?;
+                            }
+                        }
+                        // a 504 as the only answer to a backend gone silent: nothing had been relayed
+                        Got::Clean(m) if m.status() == Some(504) && matches!(s.cause, Cause::BackendStallsMidResponse { .. }) => {
+                            check_proxy_answer(i, label, m, case.keepalive_answers)?;
+                            classes.push(if head_complete { "stall_in_body->504_nothing_relayed" } else { "stall_in_head->504" });
+                            answered_504 = true;
+                            keep_connection = !announces_close(m);
+                            if !keep_connection {
+                                expect_nothing_more(i, label, c, &mut classes)?;
+                            }
+                        }
+                        Got::Clean(m) if m.status() == Some(200) => {
+                            // a clean end is admissible only when nothing of the body is missing
+                            if m.body != p.resp_body {
+                                fail!(
+                                    format!("C02/truncated-body-presented-complete:{}", s.resp_framing_name()),
+                                    "{ctx}: the backend declared a {}-byte body and went away after {} of its {} response bytes; the client received a response that ends cleanly by its own framing ({:?}) with {} body bytes; everything received: {:?}",
+                                    p.resp_body.len(),
+                                    cut,
+                                    p.resp_total,
+                                    m.framing,
+                                    m.body.len(),
+                                    raw_text(c)
+                                );
+                            }
+                            classes.push("cut_after_all_body_data->complete");
+                            keep_connection = false;
+                        }
+                        Got::Abort { partial, bytes_seen, .. } => {
+                            if let Some(code) = appended {
+                                fail!(format!("C02/proxy-answer-appended-to-started-response:{code}"), "{ctx}: a {code} answer was written behind the response that had already started: {what}; everything received: {:?}", raw_text(c));
+                            }
+                            if let Some(m) = partial {
+                                if m.status() != Some(200) || m.header("x-lab-resp") != Some(p.n.to_string().as_str()) {
+                                    fail!("C02/aborted-answer-is-not-the-backends", "{ctx}: the aborted answer is not the backend's response head: {what}");
+                                }
+                                if m.body.len() > p.resp_body.len() || first_mismatch(&m.body, &p.resp_body[..m.body.len()]).is_some() {
+                                    fail!("C02/aborted-body-not-a-prefix", "{ctx}: the {} body bytes received before the abort are not a prefix of the backend's body", m.body.len());
+                                }
+                            }
+                            classes.push(if !head_complete {
+                                "cut_in_head->abort"
+                            } else if *bytes_seen == 0 {
+                                "cut_in_body->abort_before_any_byte"
+                            } else {
+                                "cut_in_body->abort_after_partial_relay"
+                            });
+                        }
+                        _ => fail!(format!("C02/status-for-cause:{label}:{}", status_of(&got)), "{ctx}: expected 502 (nothing relayed yet) or an abort by closing the connection, got {what}"),
+                    }
+                }
+                Cause::ClientStopsMidHead(_) | Cause::ClientStopsMidBody(_) => {
+                    incomplete_at_backend_expected.push(i);
+                    match &got {
+                        Got::Clean(m) if m.status() == Some(408) => {
+                            check_proxy_answer(i, label, m, case.keepalive_answers)?;
+                            if !announces_close(m) {
+                                fail!("C02/408-keeps-connection", "{ctx}: the 408 does not announce the close of a connection that holds half a request: {:?}", m.headers);
+                            }
+                            expect_nothing_more(i, label, c, &mut classes)?;
+                        }
+                        // known finding C02/status-for-cause:client_stops_mid_body:504: once the head is routed, a
+                        // client that stops sending is answered by the backend-timeout arm. Not excluded by
+                        // construction but accepted and counted, so that the rest of the oracle (one well-formed
+                        // answer in time, nothing complete at the backend, later requests served) still applies.
+                        Got::Clean(m) if m.status() == Some(504) && matches!(s.cause, Cause::ClientStopsMidBody(_)) && !case.strict => {
+                            check_proxy_answer(i, label, m, case.keepalive_answers)?;
+                            excluded += 1;
+                            classes.push("client_stops_mid_body->504(known)");
+                            // the connection holds half a request: the client gives it up
+                        }
+                        _ => fail!(format!("C02/status-for-cause:{label}:{}", status_of(&got)), "{ctx}: expected 408, got {what}"),
+                    }
+                }
+                other => {
+                    let admissible: &[u16] = match other {
+                        Cause::NoRoute => &[404],
+                        Cause::Deny => &[401],
+                        Cause::NoBackend | Cause::BackendRefuses => &[503],
+                        Cause::BackendClosesAtAccept | Cause::BackendClosesMidRequest { .. } => &[502, 503],
+                        Cause::BackendClosesWithoutAnswer { .. } | Cause::BackendGarbage { .. } => &[502],
+                        Cause::BackendStalls | Cause::BackendAnswersLate => &[504],
+                        Cause::PerIpLimit => &[429],
+                        _ => unreachable!(),
+                    };
+                    if matches!(other, Cause::BackendClosesMidRequest { .. }) {
+                        incomplete_at_backend_expected.push(i);
+                    } else if other.uses_c0() {
+                        must_reach_backend.push((i, label));
+                    } else {
+                        must_not_reach_backend.push(i);
+                    }
+                    match &got {
+                        Got::Clean(m) if m.status().map(|st| admissible.contains(&st)).unwrap_or(false) => {
+                            check_proxy_answer(i, label, m, case.keepalive_answers)?;
+                            let st = m.status().unwrap_or(0);
+                            if *other == Cause::BackendClosesAtAccept {
+                                classes.push(if st == 502 { "closes_at_accept->502" } else { "closes_at_accept->503" });
+                            }
+                            answered_504 = st == 504;
+                            keep_connection = !announces_close(m);
+                            if matches!(other, Cause::BackendClosesMidRequest { .. }) && keep_connection {
+                                // a keep-alive answer on a connection that holds half a request: the client gives it
+                                // up. Known finding C02/rest-of-request-answered-as-new-request: the half body left
+                                // in the proxy's buffer is answered with a 400 of its own; not looked at unless strict.
+                                keep_connection = false;
+                                if case.strict {
+                                    if let Err(f) = expect_nothing_more(i, label, c, &mut classes) {
+                                        fail!("C02/rest-of-request-answered-as-new-request", "{ctx}: answered {st} without `Connection: close` while half of the request body had arrived; {}", f.message);
+                                    }
+                                } else {
+                                    excluded += 1;
+                                }
+                            } else if !keep_connection {
+                                expect_nothing_more(i, label, c, &mut classes)?;
+                            }
+                        }
+                        _ => fail!(format!("C02/status-for-cause:{label}:{}", status_of(&got)), "{ctx}: expected {admissible:?}, got {what}"),
+                    }
+                }
+            }
+            drop(holder);
+            Ok(keep_connection)
+        })();
+        let mut keep_connection = match step {
+            Ok(k) => k,
+            // known finding: whatever goes wrong with a request to the same cluster right after a keep-alive 504
+            // is the timed-out backend connection being used again
+            Err(f) if after_keepalive_504 && s.cause.uses_c0() => {
+                return Err(Failure::new(
+                    "C02/timed-out-backend-connection-reused",
+                    format!("the previous request on this client connection ended in a backend timeout answered with a keep-alive 504; this one went wrong: [{}] {}", f.signature, f.message),
+                ));
+            }
+            Err(f) => return Err(f),
+        };
+        if let Some(c) = client.as_mut() {
+            c.served += 1;
+        }
+        after_keepalive_504 = answered_504 && keep_connection;
+        if after_keepalive_504 && !case.strict && i + 1 < case.steps.len() {
+            // known finding C02/timed-out-backend-connection-reused, excluded by construction: the client
+            // does not use this connection again
+            excluded += 1;
+            keep_connection = false;
+            classes.push("keepalive_504_then_new_connection(known)");
+        }
+        backend_conn_silently_closed = keep_connection && s.cause == Cause::Normal && s.backend_closes_after && normal_ok.contains(&i);
+        if s.cause.is_fault() && i + 1 < case.steps.len() {
+            classes.push(if keep_connection { "fault_then_same_connection" } else { "fault_then_new_connection" });
+        }
+        if reused_connection && s.cause.is_fault() {
+            classes.push("fault_on_reused_connection");
+        }
+        if !keep_connection {
+            client = None;
+        }
+    }
+
+    // ---- nothing unsolicited on a connection left open
+    if let Some(mut c) = client.take() {
+        match c.conn.next_message(Kind::Response { head_request: false }, Instant::now() + Duration::from_millis(150)) {
+            ReadOutcome::IdleTimeout | ReadOutcome::Eof => {}
+            other => fail!("C02/unsolicited-bytes", "after the last answer on a connection left open the client received: {}", h1::describe(&other)),
+        }
+    }
+
+    // ---- the proxy still serves: a probe on a fresh connection
+    {
+        let n = base + 31;
+        let want = content(case.seed ^ 0xC000, 777);
+        let (bytes, _) = response_bytes(n, case.seed ^ 0xC000, 777, &BodyFraming::ContentLength, false);
+        lab.shared.lock().unwrap().actions.insert(n, Act::Respond { bytes, cut: None, reset: false, pause_before_close: false, stall_after_cut: false, close_after: false, delay_ms: 0 });
+        let mut c = open(addr)?;
+        let (rb, _) = request_bytes(n, "c0.lab", &[], &None);
+        if let Err(e) = h1::write_all(&mut c.w, &rb) {
+            fail!("C02/client-write-failed", "probe after the scenario: writing failed: {e}");
+        }
+        match read_answer(&mut c, Instant::now() + Duration::from_secs(6)) {
+            Got::Clean(m) if m.status() == Some(200) && m.body == want && m.header("x-lab-resp") == Some(n.to_string().as_str()) => {}
+            other => fail!("C02/probe-after-fault-not-served", "a plain request on a fresh connection after the scenario was not served with its body: {}", describe_got(&other)),
+        }
+    }
+
+    // ---- what the backends saw
+    std::thread::sleep(Duration::from_millis(10));
+    let recorded = lab.recorded();
+    for &i in &normal_ok {
+        let p = &plans[i];
+        let mine: Vec<&Rec> = recorded.iter().filter(|r| r.lab_req == Some(p.n)).collect();
+        if mine.len() != 1 || !mine[0].complete {
+            fail!("C02/request-count-at-backend", "request {i} (answered 200) reached the backend {} times ({:?})", mine.len(), mine.iter().map(|r| (r.complete, &r.start_line)).collect::<Vec<_>>());
+        }
+        if mine[0].body != p.req_body {
+            fail!("C02/request-body-differs", "request {i}: the client sent a {}-byte body, the backend received {} bytes", p.req_body.len(), mine[0].body.len());
+        }
+    }
+    for &(i, label) in &must_reach_backend {
+        let p = &plans[i];
+        let mine: Vec<&Rec> = recorded.iter().filter(|r| r.lab_req == Some(p.n) && r.complete && r.backend == 0).collect();
+        if mine.is_empty() {
+            // the injected cause did not happen: the answer cannot be judged against it
+            fail!(format!("C02/request-never-reached-backend:{label}"), "request {i} ({label}) was answered but the backend never received it completely: {:?}", recorded.iter().filter(|r| r.lab_req == Some(p.n)).collect::<Vec<_>>());
+        }
+        if mine.len() > 1 {
+            owned_classes.push(format!("{label}:request_sent_to_backend_{}x", mine.len()));
+        }
+    }
+    for &i in &must_not_reach_backend {
+        let p = &plans[i];
+        if let Some(r) = recorded.iter().find(|r| r.lab_req == Some(p.n)) {
+            fail!("C02/refused-request-reached-backend", "request {i} ({}) was answered by the proxy itself but reached backend {}: {:?}", case.steps[i].cause.label(), r.backend, r.start_line);
+        }
+    }
+    for &i in &incomplete_at_backend_expected {
+        let p = &plans[i];
+        if let Some(r) = recorded.iter().find(|r| r.lab_req == Some(p.n) && r.complete) {
+            fail!("C02/incomplete-request-forwarded-as-complete", "request {i} ({}) was never completed by the client but the backend read a complete request: {:?} with {} body bytes", case.steps[i].cause.label(), r.start_line, r.body.len());
+        }
+    }
+    if let Some(r) = recorded.iter().find(|r| r.invalid.is_some() && r.lab_req.map(|n| !incomplete_at_backend_expected.iter().any(|&i| plans[i].n == n)).unwrap_or(true)) {
+        fail!("C02/garbage-at-backend", "a backend received bytes that are not a request: {:?} {:?}", r.invalid, r.start_line);
+    }
+
+    // ---- measurement
+    let faults = case.steps.iter().filter(|s| s.cause.is_fault()).count();
+    rep.nontrivial = faults >= 1 && case.steps.len() >= 2;
+    rep.excluded_known = excluded;
+    let mut all: Vec<String> = classes.iter().map(|s| s.to_string()).collect();
+    all.extend(owned_classes);
+    all.push("h1->h1".into());
+    for s in &case.steps {
+        all.push(format!("cause:{}", s.cause.label()));
+        if let Cause::BackendCutsResponse { reset, pause, .. } = &s.cause {
+            all.push(format!("cut:{}:{}{}", s.resp_framing_name(), if *reset { "rst" } else { "fin" }, if *pause { ":after_pause" } else { "" }));
+            if s.resp_conn_close {
+                all.push("cut:response_with_connection_close".into());
+            }
+        }
+        if s.cause.is_fault() && (s.req_len > 0 || s.req_chunked.is_some()) {
+            all.push("fault_on_request_with_body".into());
+        }
+        if s.cause == Cause::Normal && s.backend_closes_after {
+            all.push("backend_closes_keepalive_silently".into());
+        }
+    }
+    all.push(if case.keepalive_answers { "listener:keepalive_answers" } else { "listener:default_answers" }.into());
+    if faults >= 2 {
+        all.push("faults_2+".into());
+    }
+    if case.strict {
+        all.push("strict".into());
+    }
+    all.sort();
+    all.dedup();
+    rep.classes = all;
+    rep.inner_evaluations = case.steps.len() as u64 + 1;
+    Ok(rep)
+}
+
+impl Step {
+    fn resp_framing_name(&self) -> &'static str {
+        match self.resp_framing {
+            BodyFraming::ContentLength => "cl",
+            BodyFraming::Chunked(_) => "chunked",
+            BodyFraming::CloseDelimited => "close",
+        }
+    }
+}
+
+// ------------------------------------------------------------------ runner
+
+const SUB: &str = "h1h1";
+
+fn child(args: &Args, total: u64) -> Stats {
+    lab::init_ports(args.shard.map(|s| s.0).unwrap_or(0));
+    let labcell: RefCell<Option<Lab>> = RefCell::new(None);
+    let flaky = std::cell::Cell::new(0u64);
+    let run_on = |fresh: bool, case: &Case| -> CheckResult {
+        let mut lab = match (fresh, labcell.borrow_mut().take()) {
+            (false, Some(l)) => l,
+            (_, old) => {
+                drop(old);
+                Lab::new("c02")
+            }
+        };
+        let r = scenario(&mut lab, case);
+        *labcell.borrow_mut() = if r.is_ok() { Some(lab) } else { None };
+        r
+    };
+    let check = |case: &Case| -> CheckResult {
+        let first = run_on(false, case);
+        let Err(f) = first else { return first };
+        for _ in 0..2 {
+            if let Err(f2) = run_on(true, case) {
+                return Err(if f2.signature == f.signature { f2 } else { f });
+            }
+        }
+        flaky.set(flaky.get() + 1);
+        let mut rep = CaseReport::default();
+        rep.class("flaky_unconfirmed");
+        Ok(rep)
+    };
+    let mut st = engine::run_lab_shard(args, "C02", SUB, total, strategy(), check, 24);
+    st.flaky_unconfirmed += flaky.get();
+    st
+}
+
+pub fn run(args: &Args) -> i32 {
+    if args.shard.is_some() {
+        let st = child(args, args.cases(480, 6_000));
+        return engine::shard::child_finish(args, &st);
+    }
+    let mut ev = Evidence::new(args, "fault_enumeration");
+    ev.rule(
+        SUB,
+        "one HTTP/1.1 client through a live worker (two HTTP listeners: sozu's default answers, and 401/404/429/502/503/504 templates with a Content-Length and without `Connection: close`; timeouts front 3 s, back 2 s, connect 1 s, request 2 s) to HTTP/1.1 mock backends: 1..4 requests sent one after the other, never pipelined, each with an injected cause: normal (200, keyed body, Content-Length / chunked / close-delimited, with or without `Connection: close`, the backend optionally closing its keep-alive connection silently afterwards); unknown host (404); frontend without cluster (401); cluster without backend (503); backend address refusing (503); backend closing at accept (502|503); backend closing once it has read the request, FIN or RST (502); backend closing on the request head while the client has sent half of the body (502|503); backend silent (504 within back_timeout + 3 s); backend answering 700 ms after back_timeout (504, and the late response must not reach a later request); backend answering non-HTTP bytes (502); backend cutting its response at a generated offset - inside the status line, inside the headers, at the blank line, inside the body, one byte before the end - by FIN or RST, at once or 30 ms after the prefix, or by going silent (502 or 504 as the only answer while nothing was relayed, otherwise an abort: the connection closes on a message its own framing calls incomplete and whose body bytes are a prefix of the backend's; never a clean end on fewer body bytes than declared; never a second status line behind a started response); backend answering before the request body has ended (200 relayed intact); client stopping inside the head or inside the body (408 within request/front timeout + 3 s, never a complete request at the backend); second connection of one address to a cluster limited to one per address (429). Oracle per request: exactly one answer, read by an independent strict HTTP/1.1 reader; its status is in the property's own set for the cause; proxy-made answers are well-formed, carry the configured body and are followed by nothing; a relayed 200 has the exact body and answers this request; time to answer <= governing timeout + 3 s; requests the proxy answers itself never reach a backend, requests answered 200 reach it exactly once with their exact body; after a fault the next request goes on the same connection when the answer left it usable, otherwise on a new one, and a final plain request on a fresh connection must be served: all with exact bodies. A failure is re-run on a fresh worker twice and only reported when it reproduces. Non-trivial: at least one injected fault and at least one other request in the scenario.",
+    );
+    ev.assume("only the HTTP/1.1 client -> HTTP/1.1 backend pair is built: HTTP/2 frontends and backends (several streams sharing connections, RST_STREAM as the abort), TLS listeners and the 421 wrong-certificate outcome are not exercised yet; 400 for a malformed authority and a backend that never completes the TCP handshake (connect timeout) are not played");
+    ev.assume("'no request stays unanswered beyond the configured timeouts' is observed to a deadline of governing timeout + 3 s, not forever. Governing: back_timeout for a silent or late backend, request_timeout (first request of a connection) or front_timeout for a client that stops, front_timeout for the abort after a cut response, back_timeout + front_timeout for the abort after a backend that goes silent mid-response (observed: once a response has started the proxy does not close the client connection when the backend fails, the front timeout does), connect_timeout for refusing / closing backends, 0 otherwise");
+    ev.assume("requests answered by the proxy itself carry at most 1000 body bytes written together with the head, so the answer is not lost to a kernel reset caused by unread request bytes; a cut by RST sent at once may overtake the prefix in the proxy's receive queue (kernel RST timing is approximate)");
+    ev.assume("a backend cut inside the response head admits 502 or a bare close; a 502 / 504 is admitted after any cut or stall when it is the only thing the client receives; a backend that closes its idle keep-alive connection between two requests admits 502 for the next request on it as well as a transparent reconnect");
+    ev.assume("five known findings are kept out of the generated cases (counted in excluded_known; cases with `strict`, i.e. the regression files, play them): (1) a cut after the head of a response carrying `Connection: close` is played without that header [C02/proxy-answer-appended-to-started-response:502, C02/truncated-body-presented-complete:cl]; (2) a client stopping inside the body may be answered 504 instead of 408 [C02/status-for-cause:client_stops_mid_body:504]; (3) after a backend timeout answered with a keep-alive 504 the client opens a new connection [C02/timed-out-backend-connection-reused]; (4) after a response relayed before the request body had ended the client does not send the rest and closes, and after a keep-alive 502/503 on half a request what follows is not looked at [C02/rest-of-request-answered-as-new-request]");
+    for (class, floor) in if args.replay.is_some() {
+        vec![]
+    } else {
+        vec![
+            ("cause:no_route", 0.04),
+            ("cause:deny", 0.04),
+            ("cause:no_backend", 0.04),
+            ("cause:backend_refuses", 0.04),
+            ("cause:backend_closes_at_accept", 0.04),
+            ("cause:backend_closes_without_answer", 0.05),
+            ("cause:backend_closes_mid_request", 0.04),
+            ("cause:backend_answers_before_body", 0.04),
+            ("cause:backend_stalls", 0.04),
+            ("cause:backend_answers_late", 0.02),
+            ("cause:backend_garbage", 0.05),
+            ("cause:backend_cuts_head", 0.06),
+            ("cause:backend_cuts_body", 0.10),
+            ("cause:backend_stalls_mid_response", 0.02),
+            ("cause:client_stops_mid_head", 0.02),
+            ("cause:client_stops_mid_body", 0.02),
+            ("cause:per_ip_limit", 0.04),
+            ("cause:normal", 0.30),
+            ("cut_in_body->abort_after_partial_relay", 0.06),
+            ("fault_then_same_connection", 0.08),
+            ("fault_then_new_connection", 0.15),
+            ("fault_on_reused_connection", 0.08),
+        ]
+    } {
+        ev.floor(SUB, class, floor);
+    }
+    engine::shard::run_sharded(&mut ev, args, SUB, 16, Duration::from_secs(args.tier.pick(900, 7200)));
+    ev.finish()
 }
